@@ -7,6 +7,7 @@
                 container decide) when there is one, else the generic copy-first / fit shape.
                 Prediction of a program the analysis accepts: every caller buffer unchanged after
                 the call, the result is not the caller's object when the run says it is a new one,
+                no attribute of the estimator changed by a regenerated apply-type method,
                 constructor parameters unchanged by apply-type calls.  Programs the analysis
                 rejects make no prediction (C12/Bridge.v proves there is none among the generated).
    CPool      : the observed completion order of EnsembleForecaster's member fits, fed to the pool
@@ -48,17 +49,23 @@ Definition so_of (r : mref) : bool :=
 
 Definition accepted (r : mref) : bool := is_safe (so_of r) (prog_of r).
 
-(* (program, (caller buffers before, after), the result IS the first argument object) *)
-Definition call := (mref * (store * store) * bool)%type.
+(* (program, (caller buffers before, after),
+    (the result IS the first argument object, some attribute of the estimator changed)) *)
+Definition call := (mref * (store * store) * (bool * bool))%type.
 
+(* the estimator's state buffer: [] before; the model writes [] too (kfn), so "unchanged" is
+   visible as: the accepted apply-type program leaves buffer n alone - which Proofs.v guarantees;
+   the observation `state_changed` must then be false *)
 Definition call_ok (c : call) : bool :=
-  let '(r, (before, after), res_is_arg) := c in
+  let '(r, (before, after), (res_is_arg, state_changed)) := c in
   let n := length before in
   if accepted r
   then let res := apply n (prog_of r) (before ++ [[]]) 0 in
        store_eqb (firstn n (fst res)) after &&
        match r with
-       | MGen _ _ => if (n <=? snd res)%nat then negb res_is_arg else true
+       | MGen _ _ =>
+           (if (n <=? snd res)%nat then negb res_is_arg else true) &&
+           (if so_of r then true else negb state_changed)
        | _ => true
        end
   else true.
